@@ -711,9 +711,13 @@ def r10(ctx, r):
             c = strip_casts(v["c"])
             has = c.get("k") == "mcall" and last(c.get("callee", "")) in ("has_value", "operator bool") and field_of(c.get("obj")) == fld
             t, f_ = strip_casts(v["t"]), strip_casts(v["f"])
-            ok = has and t.get("k") == "enum" and t["n"].endswith("TlsMode::Server")
+            if not has or t.get("k") != "enum":
+                raise AnalysisBroken("HttpServer::start: listener TLS mode `%s` is a conditional this rule does not know" % show(v)[:70])
+            ok = t["n"].endswith("TlsMode::Server")
         elif v.get("k") == "enum":
             ok = v["n"].endswith("TlsMode::Server")
+        else:
+            raise AnalysisBroken("HttpServer::start: listener TLS mode `%s` is computed in a form this rule does not know" % show(v)[:70])
         r.expect(ok, st, e, "listener mode not derived from the TLS configuration", "the listener's TLS mode is `%s`: with a TLS configuration present the listener must be TlsMode::Server" % show(v)[:70],
                  okdesc="listener mode = _tlsConfig.has_value() ? Server : None")
     # every field forwarded, inside the has_value() branch, with enabled = true and defaultMode = Server
